@@ -318,6 +318,9 @@ class LinComb:
         """
         if isinstance(other, int):
             if other == 0:
+                if ignore_errors():
+                    # as for a secret zero divisor: on the error path (ignore_errors / false guard) nothing raises
+                    return LinComb(0, self.lc * 0)
                 raise ValueError("Division by zero")
             if is_guard() and (self.value % other == 0):
                 return LinComb(self.value // other, self.lc * backend.fieldinverse(other))
